@@ -468,7 +468,7 @@ func runC18(ctx Ctx) int {
 	}
 	world.PinClock()
 	run := ev.NewRun("C18")
-	run.Rule = "A (codec): every byte string of length <= 5 (quick) / <= 6 (thorough) over {00,01,'a','<',7F,80,FF} and sizes 2^k and 2^k+-1 up to 1 MiB of zero / incompressible content through DeflateAndBase64 then InflateAndDecode(DEFLATE); 10 encoding identifiers that are not the DEFLATE URI must be errors; Marshal results must not be disturbed by later Marshal calls. B (messages): 6 emission scenarios (Success response POST/Redirect, SSO failure response, LogoutResponse, SOAP response, metadata) x every outside-influenced string field x 16 legal symbols (exact recovery by the library's own decoders and the harness tree) and 9 illegal-character symbols (element/attribute skeleton equal to the all-plain baseline), one field (quick) / two fields (thorough) at a time; every emitted document is additionally parsed by python3's expat in one batch"
+	run.Rule = "A (codec): every byte string of length <= 5 (quick) / <= 6 (thorough) over {00,01,'a','<',7F,80,FF} and sizes 2^k and 2^k+-1 up to 1 MiB of zero / incompressible content through DeflateAndBase64 then InflateAndDecode(DEFLATE); 16 encoding identifiers that are not the DEFLATE URI must be errors for every exported decoder (InflateAndDecode, DecodeResponse, DecodeSignature with and without base64; DecodeAuthNRequest, DecodeLogoutRequest), deflated or not; the valid (encoding, base64) combinations recover what was encoded; Marshal results must not be disturbed by later Marshal calls. B (messages): 6 emission scenarios (Success response POST/Redirect, SSO failure response, LogoutResponse, SOAP response, metadata) x every outside-influenced string field x 16 legal symbols (exact recovery by the library's own decoders and the harness tree) and 9 illegal-character symbols (element/attribute skeleton equal to the all-plain baseline), one field (quick) / two fields (thorough) at a time; every emitted document is additionally parsed by python3's expat in one batch"
 	run.Assume = []string{"values that cannot be placed in a request at all (XML-illegal request IDs) are skipped for request-echo fields", "expat is a second opinion on well-formedness only"}
 	scs := c18Scenarios()
 	byName := map[string]c18Scenario{}
@@ -556,6 +556,94 @@ func runC18(ctx Ctx) int {
 			run.Violate("unrecognised-encoding-identifier-is-not-an-error", "InflateAndDecode", []string{fmt.Sprintf("encoding=%q", enc)}, map[string]any{"out": string(out)}, nil)
 		} else {
 			run.Outcome("codec:unknown-encoding-refused")
+		}
+	}
+	// the whole exported decoding surface x b64 on / off: an identifier that is not the DEFLATE URI (or the empty "no encoding") is an
+	// error for every decoder, with and without base64; the valid combinations decode to what was encoded
+	{
+		respDoc := []byte(`<samlp:Response xmlns:samlp="urn:oasis:names:tc:SAML:2.0:protocol" ID="_r1" Version="2.0" InResponseTo="_q1"></samlp:Response>`)
+		sigDoc := []byte(`<ds:Signature xmlns:ds="http://www.w3.org/2000/09/xmldsig#"><ds:SignatureValue>AAAA</ds:SignatureValue></ds:Signature>`)
+		authnDoc := msg.Authn(msg.AuthnOpts{ID: "_a1", Issuer: "https://sp-a.example/metadata"}).Render(xt.Style{})
+		loDoc := msg.Logout(msg.LogoutOpts{ID: "_l1", Issuer: "https://sp-a.example/metadata"}).Render(xt.Style{})
+		form := func(doc []byte, deflate, b64 bool) string {
+			d := doc
+			if deflate {
+				d = msg.Deflate(doc)
+			}
+			if b64 {
+				return base64Std(d)
+			}
+			return string(d)
+		}
+		type dec struct {
+			name string
+			doc  []byte
+			b64s []bool
+			call func(enc string, b64 bool, m string) (string, error) // returns an identifying value of the decoded message
+		}
+		decs := []dec{
+			{"InflateAndDecode", respDoc, []bool{true, false}, func(enc string, b64 bool, m string) (string, error) {
+				out, err := saml_xml.InflateAndDecode(enc, b64, m)
+				return string(out), err
+			}},
+			{"DecodeResponse", respDoc, []bool{true, false}, func(enc string, b64 bool, m string) (string, error) {
+				r, err := saml_xml.DecodeResponse(enc, b64, m)
+				if err != nil || r == nil {
+					return "", err
+				}
+				return r.Id + "/" + r.InResponseTo, nil
+			}},
+			{"DecodeSignature", sigDoc, []bool{true, false}, func(enc string, b64 bool, m string) (string, error) {
+				r, err := saml_xml.DecodeSignature(enc, b64, m)
+				if err != nil || r == nil {
+					return "", err
+				}
+				return "sig", nil
+			}},
+			{"DecodeAuthNRequest", authnDoc, []bool{true}, func(enc string, _ bool, m string) (string, error) {
+				r, err := saml_xml.DecodeAuthNRequest(enc, m)
+				if err != nil || r == nil {
+					return "", err
+				}
+				return r.Id, nil
+			}},
+			{"DecodeLogoutRequest", loDoc, []bool{true}, func(enc string, _ bool, m string) (string, error) {
+				r, err := saml_xml.DecodeLogoutRequest(enc, m)
+				if err != nil || r == nil {
+					return "", err
+				}
+				return r.Id, nil
+			}},
+		}
+		want := map[string]string{"InflateAndDecode": string(respDoc), "DecodeResponse": "_r1/_q1", "DecodeSignature": "sig", "DecodeAuthNRequest": "_a1", "DecodeLogoutRequest": "_l1"}
+		unknown := []string{"urn:oasis:names:tc:SAML:2.0:bindings:URL-Encoding:deflate", saml_xml.EncodingDeflate + " ", " " + saml_xml.EncodingDeflate, strings.ToLower(saml_xml.EncodingDeflate), strings.ToUpper(saml_xml.EncodingDeflate),
+			saml_xml.EncodingDeflate[:len(saml_xml.EncodingDeflate)-1], saml_xml.EncodingDeflate + "\x00", "gzip", "identity", "deflate", "DEFLATE", "urn:x-7f3a9c", "\x00", " ", "none", "base64"}
+		for _, d := range decs {
+			for _, b64 := range d.b64s {
+				for _, deflate := range []bool{true, false} {
+					enc := ""
+					if deflate {
+						enc = saml_xml.EncodingDeflate
+					}
+					run.Evaluations.Add(1)
+					got, err := d.call(enc, b64, form(d.doc, deflate, b64))
+					if err != nil || got != want[d.name] {
+						run.Outcome("codec-api:valid-combination-fails")
+						run.Violate("decoder-does-not-recover-what-was-encoded", d.name, []string{fmt.Sprintf("deflate=%v", deflate), fmt.Sprintf("base64=%v", b64)}, map[string]any{"got": clip([]byte(got), 120), "err": fmt.Sprint(err)}, nil)
+					} else {
+						run.Outcome("codec-api:valid-combination-ok")
+					}
+					for _, u := range unknown {
+						run.Evaluations.Add(1)
+						if out, err := d.call(u, b64, form(d.doc, deflate, b64)); err == nil {
+							run.Outcome("codec:unknown-encoding-accepted")
+							run.Violate("unrecognised-encoding-identifier-is-not-an-error", d.name, []string{fmt.Sprintf("encoding=%q", u), fmt.Sprintf("base64=%v", b64), fmt.Sprintf("payload-deflated=%v", deflate)}, map[string]any{"out": clip([]byte(out), 120)}, nil)
+						} else {
+							run.Outcome("codec:unknown-encoding-refused")
+						}
+					}
+				}
+			}
 		}
 	}
 	// Marshal results are independent values
